@@ -47,6 +47,9 @@
 //     appended to the trace as `("set resp.Compress", ["true"])`; values read
 //     from abstract objects are re-read (fresh parameters) after any opaque
 //     call or such a write;
+//   - a type switch on an abstract value is an if-chain, in clause order, over
+//     extra Bool parameters `e<k>_is_<T>` ("the dynamic type is T"); fields of
+//     the narrowed value are opaque values as above;
 //   - []error literals, append on them and errors.Join are lists of optional
 //     texts and "first non-nil" (errors.Join is non-nil iff an element is);
 //   - any other call is *opaque*: its result becomes an extra parameter of the
@@ -403,6 +406,7 @@ type fctx struct {
 	loop        *loopCtx
 	opaqueVals  map[string]string
 	opaqueNodes map[ast.Expr]string
+	typeTests   map[*ast.TypeAssertExpr]bool
 	opaqueCalls map[*ast.CallExpr]string
 }
 
@@ -658,6 +662,21 @@ func (c *fctx) expr(e ast.Expr) ex {
 			return ex{code: r.code, partial: true}
 		}
 		return c.opaqueValue(e)
+	}
+	if ta, ok := e.(*ast.TypeAssertExpr); ok && c.typeTests[ta] {
+		// "the dynamic type of X is T" (a clause of a type switch): an opaque Bool
+		key := c.show(ta.X) + " is " + c.show(ta.Type)
+		if n, ok := c.opaqueVals[key]; ok {
+			return ex{code: n}
+		}
+		if c.opaqueVals == nil {
+			c.opaqueVals = map[string]string{}
+		}
+		c.nOpaque++
+		name := fmt.Sprintf("e%d_is_%s", c.nOpaque, sanitize(lastName(c.show(ta.Type))))
+		c.opaque = append(c.opaque, fmt.Sprintf("(%s : Bool)", name))
+		c.opaqueVals[key] = name
+		return ex{code: name}
 	}
 	fail("expression %s (%T)", c.show(e), e)
 	return ex{}
@@ -1406,6 +1425,8 @@ func (c *fctx) stmts(list []ast.Stmt) string {
 			}
 		}
 		fail("branch statement %s", x.Tok)
+	case *ast.TypeSwitchStmt:
+		return c.stmts(append(c.desugarTypeSwitch(x), rest...))
 	case *ast.BlockStmt:
 		return c.stmts(append(append([]ast.Stmt{}, x.List...), rest...))
 	case *ast.EmptyStmt:
@@ -1562,6 +1583,37 @@ func (c *fctx) desugarSwitch(x *ast.SwitchStmt) []ast.Stmt {
 	}
 	last.Else = &ast.BlockStmt{List: deflt}
 	return append(pre, chain)
+}
+
+// desugarTypeSwitch turns a type switch on an abstract value into an if-chain
+// over opaque Bool parameters "the dynamic type is T", tested in clause order.
+func (c *fctx) desugarTypeSwitch(x *ast.TypeSwitchStmt) []ast.Stmt {
+	var ta *ast.TypeAssertExpr
+	switch a := x.Assign.(type) {
+	case *ast.ExprStmt:
+		ta, _ = a.X.(*ast.TypeAssertExpr)
+	case *ast.AssignStmt:
+		ta, _ = a.Rhs[0].(*ast.TypeAssertExpr)
+	}
+	if x.Init != nil || ta == nil || c.t.leanType(c.typeOf(ta.X)) != "" {
+		fail("type switch %s", c.show(x.Assign))
+	}
+	if c.typeTests == nil {
+		c.typeTests = map[*ast.TypeAssertExpr]bool{}
+	}
+	sw := &ast.SwitchStmt{Body: &ast.BlockStmt{}}
+	for _, cl := range x.Body.List {
+		cc := cl.(*ast.CaseClause)
+		nc := &ast.CaseClause{Body: cc.Body}
+		for _, ty := range cc.List {
+			t := &ast.TypeAssertExpr{X: ta.X, Type: ty}
+			c.p.info.Types[t] = types.TypeAndValue{Type: types.Typ[types.Bool]}
+			c.typeTests[t] = true
+			nc.List = append(nc.List, t)
+		}
+		sw.Body.List = append(sw.Body.List, nc)
+	}
+	return c.desugarSwitch(sw)
 }
 
 func (c *fctx) assignStmt(x *ast.AssignStmt, rest []ast.Stmt) string {
